@@ -38,6 +38,14 @@ type Generator struct {
 	doc     *v3.Document
 	schemas *orderedmap.Map[string, *base.SchemaProxy]
 	format  OutputFormat
+	// goPackageName is the Go package name of the file the service is defined in; it is the
+	// first segment of the default path (see annotations.ResolveMethodPath).
+	goPackageName string
+}
+
+// SetGoPackageName sets the Go package name used for default path resolution.
+func (g *Generator) SetGoPackageName(name string) {
+	g.goPackageName = name
 }
 
 // NewGenerator creates a new OpenAPI generator with the specified output format.
@@ -677,27 +685,23 @@ type methodHTTPInfo struct {
 }
 
 // extractMethodHTTPInfo extracts HTTP configuration from service and method annotations.
-func extractMethodHTTPInfo(service *protogen.Service, method *protogen.Method) methodHTTPInfo {
+func extractMethodHTTPInfo(service *protogen.Service, method *protogen.Method, goPackageName string) methodHTTPInfo {
 	servicePath := annotations.GetServiceBasePath(service)
 	methodConfig := annotations.GetMethodHTTPConfig(method)
 
-	var path, httpMethod string
+	var httpMethod string
 	var pathParams []string
+	methodPath := ""
 
-	if servicePath != "" || methodConfig != nil {
-		methodPath := ""
-
-		if methodConfig != nil {
-			methodPath = methodConfig.Path
-			// Shared annotations return UPPERCASE methods; OpenAPI requires lowercase
-			httpMethod = strings.ToLower(methodConfig.Method)
-			pathParams = methodConfig.PathParams
-		}
-
-		path = annotations.BuildHTTPPath(servicePath, methodPath)
-	} else {
-		path = fmt.Sprintf("/%s/%s", service.Desc.Name(), method.Desc.Name())
+	if methodConfig != nil {
+		methodPath = methodConfig.Path
+		// Shared annotations return UPPERCASE methods; OpenAPI requires lowercase
+		httpMethod = strings.ToLower(methodConfig.Method)
+		pathParams = methodConfig.PathParams
 	}
+
+	// Resolve the path exactly as the servers and clients do
+	path := annotations.ResolveMethodPath(servicePath, methodPath, goPackageName, method.GoName)
 
 	if httpMethod == "" {
 		httpMethod = httpMethodPost
@@ -807,7 +811,7 @@ func assignOperationToPathItem(pathItem *v3.PathItem, httpMethod string, operati
 
 // processMethod converts a protobuf RPC method to an OpenAPI operation.
 func (g *Generator) processMethod(service *protogen.Service, method *protogen.Method) {
-	info := extractMethodHTTPInfo(service, method)
+	info := extractMethodHTTPInfo(service, method, g.goPackageName)
 
 	operation := &v3.Operation{
 		OperationId: string(method.Desc.Name()),
